@@ -10,7 +10,7 @@ def to_bp_row(logic, codes, mdim):
     return logic.mv_to_bp(np.asarray(codes, dtype=np.uint8)[np.newaxis, :])[0, :mdim]
 
 
-def run_with_injection(c, m, stim, target, newvals):
+def run_with_injection(c, m, stim, target, newvals, reuse=False, strip=False):
     """Runs LogicSim with a callback that records every call and overwrites line `target` (None = identity)."""
     from kyupy import logic
     mdim = {2: 1, 4: 2, 8: 3}[m]
@@ -24,7 +24,7 @@ def run_with_injection(c, m, stim, target, newvals):
         calls.append((line.index, logic.bp_to_mv(full[np.newaxis])[0, :stim.shape[1]].copy(), type(line).__name__))
         if target is not None and line.index == target:
             values[...] = to_bp_row(logic, newvals, mdim)
-    sim, s1, s0 = lc.run_logicsim(c, m, stim, False, False, inject_cb=cb)
+    sim, s1, s0 = lc.run_logicsim(c, m, stim, reuse, strip, inject_cb=cb)
     return sim, s1, calls
 
 
@@ -66,6 +66,25 @@ def check_case(c, m, stim, target, newvals):
             if v != got:
                 return (f'after overwriting line {target} with {ov} (lane {lane}) position {p} captured {got}, a circuit in which that '
                         f'line is driven with {ov} gives {v}')
+    # the same must hold with memory reuse and with stripped forks (the injected signal is still evaluated there unless it
+    # is a stripped fan-out branch)
+    for reuse, strip in ((True, False), (False, True), (True, True)):
+        if strip and not all(len(f.ins) > 0 and f.ins[0] is not None for f in c.forks.values()):
+            continue
+        simo, s1o, callso = run_with_injection(c, m, stim, target, newvals, reuse, strip)
+        if target not in [x[0] for x in callso]:
+            continue
+        for lane in range(stim.shape[1]):
+            sv = stim[:, lane].tolist() if m != 2 else (stim[:, lane] == 3).astype(int).tolist()
+            ov = int(newvals[lane]) if m != 2 else int(newvals[lane] == 3)
+            memo, cap = on.evaluate(c, sv, A, overrides={target: ov})
+            for p, v in enumerate(cap):
+                if v is None or not mask[p]:
+                    continue
+                got = int(s1o[p, lane]) if m != 2 else int(s1o[p, lane] == 3)
+                if v != got:
+                    return (f'c_reuse={reuse} strip_forks={strip}: after overwriting line {target} with {ov} (lane {lane}) position {p} '
+                            f'captured {got}, a circuit in which that line is driven with {ov} gives {v}')
     # nothing upstream changes: every signal evaluated before the target holds its plain value
     from kyupy import logic
     pos = expected_seq.index(target)
